@@ -503,7 +503,8 @@ class DeserializationMethodVisitor(
             ):
                 constructor = FieldsConstructor(
                     cls,
-                    len(fields),
+                    # not len(fields), because fields can be skipped in deserialization
+                    len(dataclasses.fields(cls)),
                     tuple(
                         DefaultField(f.name, f.default)
                         for f in dataclasses.fields(cls)
